@@ -246,3 +246,30 @@ Proof.
     exists KFirst. do 2 eexists. rewrite <- app_assoc. split; [reflexivity|auto].
 Qed.
 End StateLink.
+
+(* ---------- when encap must / does produce a complete packet ---------- *)
+Section Complete.
+Variable crc : list byte -> N -> N -> list byte -> N.
+
+Lemma encap_ok_guards s pdu fid pt lab buf s' b' st :
+  encap_hl crc s pdu fid pt lab buf = (s', b', inl st) -> is_zero6 lab = false /\ ~ (256 <= pt < 1536).
+Proof.
+  unfold encap_hl. destruct (is_zero6 lab); [discriminate|].
+  destruct ((256 <=? pt) && (pt <? 1536)) eqn:E; [discriminate|]. intros _. split; [reflexivity|].
+  intros [H1 H2]. apply andb_false_iff in E. destruct E as [E|E]; [apply N.leb_gt in E|apply N.ltb_ge in E]; lia.
+Qed.
+
+Lemma encap_must_complete s pdu fid pt lab buf : is_zero6 lab = false -> ~ (256 <= pt < 1536) ->
+  let l := snd (check_reuse_hl s lab) in
+  lenN pdu + lenN (label_bytes l) + 2 <= 4095 -> 4 + lenN (label_bytes l) + lenN pdu <= lenN buf ->
+  snd (encap_hl crc s pdu fid pt lab buf) = inl (Completed (4 + lenN (label_bytes l) + lenN pdu)).
+Proof.
+  intros Hz Hp l Hg Hf. unfold encap_hl. rewrite Hz.
+  replace ((256 <=? pt) && (pt <? 1536)) with false.
+  2:{ symmetry. apply andb_false_iff. destruct (N.leb_spec 256 pt); [|now left]. right. apply N.ltb_ge. lia. }
+  subst l. destruct (check_reuse_hl s lab) as [s1 l]. cbn [snd] in *.
+  replace (4 + lenN (label_bytes l) + lenN pdu <=? lenN buf) with true by (symmetry; now apply N.leb_le).
+  replace (lenN pdu + lenN (label_bytes l) + 2 <=? 4095) with true by (symmetry; now apply N.leb_le).
+  cbn [andb snd]. now rewrite lenN_pkt_complete.
+Qed.
+End Complete.
